@@ -12,11 +12,17 @@ SUB = "sub"
 CONTENTS = ["alpha", "bravo", "ALPHA", "", "charlie-long-content"]
 
 
+# ordinary data files whose names other tools treat specially (filecmp's default ignore list, core dumps)
+ODD_NAMES = ["tags", "__pycache__", "core"]
+
+
 def rand_files(rng, nested=True):
     files = {}
     for fn in FILE_NAMES:
         if rng.random() < 0.55:
             files[fn] = [rng.choice(CONTENTS), T0 + rng.choice([0, 0, 100, 200])]
+    if rng.random() < 0.12:
+        files[rng.choice(ODD_NAMES)] = [rng.choice(CONTENTS), T0 + rng.choice([0, 100])]
     if nested and rng.random() < 0.45:
         for fn in rng.sample(FILE_NAMES, rng.randint(1, 2)):
             files[f"{SUB}/{fn}"] = [rng.choice(CONTENTS), T0 + rng.choice([0, 100])]
